@@ -75,6 +75,7 @@ class Ctx:
         self.problems = []      # (cls, msg)
         self.foreign_in_flight = 0
         self.events = []
+        self.limits = {}        # application index -> (max_body_size, max_memfile_size) it was constructed with
 
     def problem(self, cls, msg):
         self.problems.append((cls, msg))
@@ -135,6 +136,8 @@ def check_reads(ctx, call, app, env, when):
     exp = expected_reads(call)
     exp['environ_is_own'] = True
     exp['app_is_own'] = True
+    if call['app'] in ctx.limits:
+        exp['cfg_limits'] = ctx.limits[call['app']] + ('',)
     for k, v in exp.items():
         if got.get(k) != v:
             ctx.problem('C10:foreign-request-visible',
@@ -257,6 +260,10 @@ def do_op(ctx, call, op, app, env):
         cp = app.request.copy()
         if cp.path != path_of(call) or cp.query.get('m') != 'q' + call['m']:
             ctx.problem('C10:copy-wrong', f'request {call["m"]}: copy shows path {cp.path!r}')
+        own = ctx.limits.get(call['app'], (None, 102400))
+        if (cp.config.max_body_size, cp.config.max_memfile_size) != own:
+            ctx.problem('C10:copy-wrong', f'request {call["m"]} (app {call["app"]}): the copy is configured with the limits '
+                        f'{(cp.config.max_body_size, cp.config.max_memfile_size)!r}, the application with {own!r}')
     elif kind == 'copy_mutate':
         cp = app.request.copy()
         cp['PATH_INFO'] = '/mutated'
@@ -484,7 +491,54 @@ def gen_case(rng, tier):
     counter = [0]
     top = [gen_call(rng, n_apps, 1, counter) for _ in range(rng.randint(1, 4))]
     return {'n_apps': n_apps, 'default_at': rng.choice([None, 0, 1]) if True else None, 'top': top,
-            'construct_order': rng.choice(['fwd', 'rev'])}
+            'construct_order': rng.choice(['fwd', 'rev']), 'own_cfg': rng.random() < 0.5}
+
+
+# ---- sweep units: two applications on two threads, thread 0 pre-empted exactly once at every step of its solo run ------
+_SWEEP_PROGS = [
+    # (ops of thread 0 / application 0, ops of thread 1 / application 1)
+    ([['copy'], ['copy'], ['copy']], [['copy']]),
+    ([['copy'], ['copy_mutate'], ['copy']], [['new_app'], ['copy']]),
+    ([['copy'], ['copy']], [['new_app_from_config']]),
+    ([['new_request'], ['new_response'], ['copy']], [['new_app_custom_errors'], ['copy_mutate']]),
+    ([['new_app'], ['copy']], [['copy'], ['copy']]),
+]
+
+
+def sweep_units(tier, root):
+    rng = random.Random(root ^ 0xC10)
+    units = []
+    for k, (a, b) in enumerate(_SWEEP_PROGS):
+        for own in ((True,) if tier == 'quick' else (True, False)):
+            for kind in (('plain',) if tier == 'quick' and k else ('plain', 'static', 'bad')):
+                units.append({'a': a, 'b': b, 'own_cfg': own, 'kind': kind, 'default_at': None})
+    if tier != 'quick':
+        for _ in range(40):
+            counter = [0]
+            ca, cb = gen_call(rng, 2, 2, counter), gen_call(rng, 2, 2, counter)
+            ca['app'], cb['app'] = 0, 1
+            for c in (ca, cb):
+                c['ops'] = [op for op in c['ops'] if op[0] not in ('nest',)]
+                c['write_at'] = min(c['write_at'], len(c['ops']))
+            units.append({'calls': [ca, cb], 'own_cfg': rng.random() < 0.7, 'default_at': rng.choice([None, None, 0, 1])})
+    return units
+
+
+def expand_unit(u):
+    from . import c10_sched
+    if 'calls' in u:
+        calls = u['calls']
+    else:
+        calls = []
+        for i, ops in enumerate((u['a'], u['b'])):
+            c = {'app': i, 'm': 'M%d' % (i + 1), 'status': [200, 201][i], 'ops': ops, 'write_at': len(ops) // 2}
+            if u['kind'] != 'plain':
+                c[u['kind']] = True
+            calls.append(c)
+    base = {'n_apps': 2, 'default_at': u.get('default_at'), 'construct_order': 'fwd', 'gran': 'line', 'own_cfg': u['own_cfg']}
+    solo = c10_sched.run_case(dict(base, threads=[calls[0]], plan={'mode': 'explicit', 'first': 0, 'switches': []}))
+    for s in range(1, solo['steps'] + 1):
+        yield dict(base, threads=calls, plan={'mode': 'explicit', 'first': 0, 'switches': [[s, 1]]})
 
 
 def summarise(case):
@@ -526,6 +580,10 @@ def build_apps(ctx, case):
     for i in order:
         if case.get('default_at') == i:
             apps[i] = ombott.default_app()
+        elif case.get('own_cfg'):
+            # applications that differ in their request configuration
+            ctx.limits[i] = (5000 + i, 3000 + i)
+            apps[i] = ombott.Ombott({'max_body_size': 5000 + i, 'max_memfile_size': 3000 + i})
         else:
             apps[i] = ombott.Ombott()
     ctx.apps = apps
